@@ -28,6 +28,18 @@ REACTIONS = {
                                 allowed_intermediate_particles=["Sigma(1750)"], allowed_interaction_types=["strong"]),
     "jpsi_k0_sigma_pbar_N": dict(initial_state=("J/psi(1S)", [+1]), final_state=["K0", "Sigma+", "p~"],
                                  allowed_intermediate_particles=["Sigma(1750)", "N(1700)+"], allowed_interaction_types=["strong"]),
+    # single-topology reactions with complete helicity sets (C05)
+    "jpsi_full_sigmabar_sigma": dict(initial_state=("J/psi(1S)", [-1, 0, +1]), final_state=["K0", "Sigma+", "p~"],
+                                     allowed_intermediate_particles=["Sigma(1750)"], allowed_interaction_types=["strong"]),
+    "jpsi_full_gamma_pi0_pi0": dict(initial_state=("J/psi(1S)", [-1, 0, +1]), final_state=["gamma", "pi0", "pi0"],
+                                    allowed_intermediate_particles=["f(0)(980)"], allowed_interaction_types=["strong", "EM"]),
+    "jpsi_full_p_pbar": dict(initial_state=("J/psi(1S)", [-1, 0, +1]), final_state=["p", "p~"], allowed_interaction_types=["strong", "EM"]),
+    "lambdac_p_k_pi_L1520": dict(initial_state="Lambda(c)+", final_state=["p", "K-", "pi+"], allowed_intermediate_particles=["Lambda(1520)"],
+                                 mass_conservation_factor=0.6),
+    "lambdac_p_k_pi_Kstar": dict(initial_state="Lambda(c)+", final_state=["p", "K-", "pi+"], allowed_intermediate_particles=["K*(892)0"],
+                                 mass_conservation_factor=0.6),
+    "lambdac_p_k_pi_Delta": dict(initial_state="Lambda(c)+", final_state=["p", "K-", "pi+"], allowed_intermediate_particles=["Delta(1232)++"],
+                                 mass_conservation_factor=0.6),
 }
 
 
